@@ -12,8 +12,8 @@ def mut(id, props, file, old, new, note="", count=1):
 
 # ---------------------------------------------------------------- C01
 mut("c01_async_keep_old", ["C01", "C11"], CORE + "async_global_cache.rs",
-    "        self.remove_existing_entry(key, &mut order);", "        if self.cache.contains_key(key) {\n            return;\n        }",
-    "async store keeps the first value when the key exists (reverts the D1 fix)", count=2)
+    "        if !self.dequeue_existing_key(key, &mut order) {", "        if self.cache.contains_key(key) {\n            return;\n        }\n        if !self.dequeue_existing_key(key, &mut order) {",
+    "async store keeps the first value when the key exists (reverts the D1 fix)")
 mut("c01_sync_insert_keep_old", ["C01", "C11"], CORE + "global_cache.rs",
     "        self.map.write().insert(key_s.clone(), entry);\n\n        let mut o = self.order.lock();\n        if let Some(pos) = o.iter().position(|k| *k == key_s) {\n            o.remove(pos);\n        }\n        o.push_back(key_s.clone());\n\n        // Always handle",
     "        self.map.write().entry(key_s.clone()).or_insert(entry);\n\n        let mut o = self.order.lock();\n        if let Some(pos) = o.iter().position(|k| *k == key_s) {\n            o.remove(pos);\n        }\n        o.push_back(key_s.clone());\n\n        // Always handle",
@@ -48,7 +48,7 @@ mut("c04_thread_limit_off_by_one", ["C04"], CORE + "thread_local_cache.rs",
     "thread-local overflow test > became >=")
 # ---------------------------------------------------------------- C05
 mut("c05_async_forgets_value_size", ["C05"], CORE + "async_global_cache.rs",
-    "                if current_mem + value_size <= max_mem {", "                if current_mem <= max_mem {",
+    "                if current_mem - replaced_size + value_size <= max_mem {", "                if current_mem - replaced_size <= max_mem {",
     "async memory loop forgets the size of the incoming value")
 mut("c05_global_oversize_check_dropped", ["C05"], CORE + "global_cache.rs",
     "            if new_value_size > max_mem {", "            if new_value_size > max_mem && false {",
@@ -68,12 +68,12 @@ mut("c06_sync_expiry_gt", ["C06"], CORE + "cache_entry.rs",
     "            self.inserted_at.elapsed().as_secs() >= ttl_secs", "            self.inserted_at.elapsed().as_secs() > ttl_secs",
     "sync expiry >= became >")
 mut("c06_async_purge_forgets_queue", ["C06", "C04"], CORE + "async_global_cache.rs",
-    "            // Also remove from order queue to prevent orphaned keys\n            let mut order = self.order.lock();\n            order.retain(|k| k != key);",
-    "            // Also remove from order queue to prevent orphaned keys\n            let _order = self.order.lock();",
+    "            let mut order = self.order.lock();\n            self.cache.remove(key);\n            order.retain(|k| k != key);",
+    "            let _order = self.order.lock();\n            self.cache.remove(key);",
     "async expired lookup leaves the key in the queue")
 mut("c06_async_purge_forgets_store", ["C06"], CORE + "async_global_cache.rs",
-    "            drop(entry_ref);\n            self.cache.remove(key);\n",
-    "            drop(entry_ref);\n",
+    "            let mut order = self.order.lock();\n            self.cache.remove(key);\n            order.retain(|k| k != key);",
+    "            let mut order = self.order.lock();\n            order.retain(|k| k != key);",
     "async expired lookup leaves the entry in the store")
 mut("c06_async_expiry_gt", ["C06"], CORE + "async_global_cache.rs",
     "                age >= ttl\n", "                age > ttl\n",
@@ -139,8 +139,8 @@ mut("c12_event_reads_tag_table", ["C12"], CORE + "invalidation.rs",
     "        let cache_names = self\n            .event_to_caches\n            .read()", "        let cache_names = self\n            .tag_to_caches\n            .read()",
     "invalidate_by_event looks the name up in the tag table")
 mut("c12_sync_clear_keeps_queue", ["C13", "C04"], "cachelito-macros/src/lib.rs",
-    "                            #cache_ident.write().clear();\n                            #order_ident.lock().clear();",
-    "                            #cache_ident.write().clear();\n                            let _ = #order_ident.lock();",
+    "                            #cache_ident.write().clear();\n                            order_write.clear();",
+    "                            #cache_ident.write().clear();\n                            let _ = &mut order_write;",
     "sync clear callback empties the store but not the queue")
 mut("c12_dep_registered_as_tag", ["C12", "C13"], CORE + "invalidation.rs",
     "            let mut dep_map = self.dependency_to_caches.write();", "            let mut dep_map = self.tag_to_caches.write();",
@@ -190,3 +190,48 @@ mut("c19_limit_plus_one", ["C19", "C04"], "cachelito-macro-utils/src/lib.rs",
 mut("c19_async_ttl_ignored_unless_tlru", ["C19", "C06"], "cachelito-async-macros/src/lib.rs",
     "    let ttl_expr = &attrs.ttl;", "    let ttl_none = quote! { Option::<u64>::None };\n    let ttl_expr = if attrs.policy.to_string().contains(\"lru\") { &attrs.ttl } else { &ttl_none };",
     "async ttl only honoured for lru/tlru policies")
+
+# ---------------------------------------------------------------- concurrency (scheduled build)
+mut("c17_inv_with_lock_order", ["C17"], "cachelito-macros/src/lib.rs",
+    "                        let mut order_write = #order_ident.lock();\n                        let mut map_write = #cache_ident.write();",
+    "                        let mut map_write = #cache_ident.write();\n                        let mut order_write = #order_ident.lock();",
+    "sync invalidate_with callback locks map before order queue (reverts the D5 fix)")
+mut("c17_global_get_expired_lock_order", ["C17"], CORE + "global_cache.rs",
+    "            let mut o = self.order.lock();\n            // Acquire write lock to modify the map\n            let mut map_write = self.map.write();",
+    "            // Acquire write lock to modify the map\n            let mut map_write = self.map.write();\n            let mut o = self.order.lock();",
+    "expired path of the global get locks map before order queue")
+mut("c18_sync_macro_clear_two_sections", ["C18"], "cachelito-macros/src/lib.rs",
+    "                            let mut order_write = #order_ident.lock();\n                            #cache_ident.write().clear();\n                            order_write.clear();",
+    "                            #cache_ident.write().clear();\n                            #order_ident.lock().clear();",
+    "sync clear callback: two critical sections (reverts D6, site 1)")
+mut("c18_async_macro_clear_two_sections", ["C18"], "cachelito-async-macros/src/lib.rs",
+    "                        let mut order_write = #order_ident.lock();\n                        #cache_ident.clear();\n                        order_write.clear();",
+    "                        #cache_ident.clear();\n                        #order_ident.lock().clear();",
+    "async clear callback: two critical sections (reverts D6, site 2)")
+mut("c18_global_clear_two_sections", ["C18"], CORE + "global_cache.rs",
+    "        let mut order = self.order.lock();\n        self.map.write().clear();\n        order.clear();",
+    "        self.map.write().clear();\n        self.order.lock().clear();",
+    "GlobalCache::clear: two critical sections (reverts D6, site 3)")
+mut("c18_async_expired_two_sections", ["C18"], CORE + "async_global_cache.rs",
+    "            let mut order = self.order.lock();\n            self.cache.remove(key);\n            order.retain(|k| k != key);",
+    "            self.cache.remove(key);\n            let mut order = self.order.lock();\n            order.retain(|k| k != key);",
+    "async expired lookup: store and queue updated in two critical sections (reverts D6, site 4)")
+mut("c15_counter_load_store", ["C15"], CORE + "stats.rs",
+    "        self.hits.fetch_add(1, Ordering::Relaxed);", "        let v = self.hits.load(Ordering::Relaxed);\n        self.hits.store(v + 1, Ordering::Relaxed);",
+    "hit counter incremented with load + store (lost update)")
+mut("c03_async_remove_then_insert", ["C03"], CORE + "async_global_cache.rs",
+    "        if self.cache.contains_key(key) {\n            order.retain(|k| k != key);\n            true",
+    "        if self.cache.remove(key).is_some() {\n            order.retain(|k| k != key);\n            false",
+    "async re-store removes the old entry before inserting the new one (transient absence)")
+mut("c20_queue_preregistered", ["C20"], "cachelito-async-macros/src/lib.rs",
+    "        // Execute original async function (cache miss or expired)\n        let __result = (async #block).await;",
+    "        // Execute original async function (cache miss or expired)\n        #order_ident.lock().push_back(__key.clone());\n        let __result = (async #block).await;",
+    "async wrapper registers the key in the order queue before awaiting the body")
+mut("c20_guard_across_await", ["C20"], "cachelito-async-macros/src/lib.rs",
+    "        // Execute original async function (cache miss or expired)\n        let __result = (async #block).await;",
+    "        // Execute original async function (cache miss or expired)\n        let __guard = #order_ident.lock();\n        let __result = (async #block).await;\n        drop(__guard);",
+    "async wrapper keeps the order-queue lock across the await of the body")
+mut("c20_stats_miss_recorded_after_body", ["C20", "C15"], "cachelito-async-macros/src/lib.rs",
+    "        // Cache the result (conditional based on cache_if predicate or default behavior)\n        #cache_insert",
+    "        // Cache the result (conditional based on cache_if predicate or default behavior)\n        #cache_insert\n        let _ = __cache.get(&__key);",
+    "async wrapper performs a second lookup after storing (touches recency / statistics after the body)")
